@@ -223,9 +223,14 @@ class HelpersStream:
             tr = rng.choice(["tcp", "tcp", "websockets"])
             if rng.random() < 0.55:
                 n = rng.randint(1, 6)
+                # now and then a batch longer than the client's in-flight window (20): QoS 1/2 messages with QoS 0 ones among
+                # and after them - list order must hold all the same
+                long = rng.random() < 0.12
+                if long:
+                    n = rng.randint(22, 28)
                 msgs = []
                 kinds = []
-                for _ in range(n):
+                for j in range(n):
                     t = rng.choice([b"t/a", b"t/\xc3\xa9", b"x"])
                     k = rng.choice(["b", "b", "b", "i", "f", "s", "n", "a"])
                     if k == "i":
@@ -239,6 +244,11 @@ class HelpersStream:
                     else:
                         p = bytes(rng.randrange(256) for _ in range(rng.choice([0, 1, 5, 200])))
                     kinds.append(k)
+                    if long:
+                        p = p[:3]
+                        q = 0 if (j >= 21 and rng.random() < 0.7) else rng.choice([1, 1, 2])
+                        msgs.append(f"{hx(t)}:{hx(p)}:{q}:{rng.randrange(2)}")
+                        continue
                     msgs.append(f"{hx(t)}:{hx(p)}:{rng.choice([0, 1, 2])}:{rng.randrange(2)}")
                 single = int(n == 1 and rng.random() < 0.5)
                 case.append(f"multiple proto={proto} transport={tr} form={rng.choice(['tuple', 'dict', 'mixed'])} single={single} "
